@@ -489,6 +489,7 @@ func loadSource(v ssa.Value) ssa.Value {
 func (x *Exec) loopEnv(fr *Frame, st *State, h *ssa.BasicBlock) *Env {
 	env := x.entryEnv(fr, st)
 	env.atPos = blockPos(h)
+	env.loopKey = fmt.Sprintf("%p", h)
 	// parameters are spilled to cells in NaiveForm: names resolve to the
 	// current cell contents, entry values are available as old(name)
 	entry := x.entryEnv(fr, st)
@@ -532,6 +533,16 @@ func fnDeclares(fn *ssa.Function, name string) bool {
 // loopEntry: first arrival at a loop header. Returns false if the path ends.
 func (x *Exec) loopEntry(fr *Frame, st *State, h *ssa.BasicBlock, ord int) bool {
 	invs := x.loopInvs(fr, ord)
+	for _, c := range invs {
+		if strings.Contains(c.Src, "atEntry(") {
+			// the invariants relate the loop's state to the state it was entered in
+			if st.loopEntries == nil {
+				st.loopEntries = map[string]*State{}
+			}
+			st.loopEntries[fmt.Sprintf("%p", h)] = st.clone()
+			break
+		}
+	}
 	if fr.isEntry && x.ctr != nil {
 		if n, ok := x.ctr.Unroll[ord]; ok && n > 0 {
 			_ = n
